@@ -14,6 +14,7 @@ THEOREMS = [
     "C12_impl_eq_identity", "C12_incomparable_iff_key", "C12_sort_sorted", "C12_sort_deterministic",
     "C12_c_richcompare_eq_py", "C12_binop_c_eq_py",
     "C12_generated_compare_eq_model", "C12_generated_methods_eq_model",
+    "C12_generated_c_richcompare_eq_model", "C12_generated_c_method_table",
 ]
 
 
@@ -25,17 +26,31 @@ def regenerate(run):
     except compare.TranslationError as e:
         return ["_compare / comparison methods no longer have the translatable shape: %s" % e]
     C.write_if_changed(os.path.join(C.COQ, "Gen", "Compare.v"), text)
+    from ..translate import compare_c
+    try:
+        ctext = compare_c.translate(os.path.join(C.REPO, "src", "zope", "interface", "_zope_interface_coptimizations.c"))
+    except compare_c.TranslationError as e:
+        # keep the last accepted Gen/CompareC.v (or the pinned copy) so that the development still builds
+        cpath = os.path.join(C.COQ, "Gen", "CompareC.v")
+        if not os.path.exists(cpath):
+            C.write_if_changed(cpath, open(os.path.join(os.path.dirname(compare_c.__file__), "compare_c.pinned.v")).read())
+        return ["C IB_richcompare is no longer translatable: %s" % e]
+    C.write_if_changed(os.path.join(C.COQ, "Gen", "CompareC.v"), ctext)
     return []
 
 RULE = ("operand pairs drawn from a pool of interfaces / class specifications / None / foreign objects "
         "with names and modules that are empty, equal, prefix-related, non-ASCII and non-BMP; a case is "
         "non-trivial when at least one operand is an interface or class specification; distinct = "
         "distinct (kinds, same-object?, name-order, module-order) signature")
-TRUSTED_BASE = ["CPython rich-comparison protocol as modelled in Model/Order.v binop (validated by this correspondence)"]
+TRUSTED_BASE = ["CPython rich-comparison protocol as modelled in Model/Order.v binop (validated by this correspondence)",
+                "harness/translate/compare.py (Python ast) and harness/translate/compare_c.py (token template of IB_richcompare; "
+                "reads PyObject_RichCompareBool on two str objects as the code-point comparison str_cmp; reference counting not translated)"]
 ASSUMPTIONS = ["interface __name__/__module__ are str (or None for a descriptive name, only compared with other None names) and immutable after creation",
                "hash seed independence is observed over 4 processes, and by construction in the model"]
 
 NAMES = ["", "I", "IA", "IB", "IAB", "J", "Ié", "I\U0001F600", "m.C", "m.IA"]
+# same-width non-ASCII strings whose byte-wise (little-endian memcmp) order differs from code-point order
+WIDE = ["I\u0101", "I\u0200", "\u03a9", "\u4e2d", "I\u00ff", "I\u0100x", "I\U00010301", "I\U0001F600", "\U00010301", "\U0001F600a"]
 MODS = ["", "m", "m.n", "mn", "n", "zope.interface.declarations", "é"]
 KINDS = ["iface", "iface", "iface", "impl", "impl", "none", "named", "anon"]
 # "descriptive" names: Element.__init__ turns a name containing a space (and no docstring) into __doc__ and
@@ -92,6 +107,16 @@ def generate(run, tier):
             cases.append({"a": {"kind": "iface", "id": 5000 + sp, "name": na, "module": "m"}, "b": other}); sp += 1
         d = {"kind": "iface", "id": 5000 + sp, "name": na, "module": "m"}; sp += 1
         cases.append({"a": d, "b": d})
+    # wide-character stream: every ordered pair of WIDE strings as names (equal modules) and as modules (equal names)
+    wi = 0
+    for kinds in (("iface", "iface"), ("iface", "impl"), ("impl", "impl")):
+        for x in WIDE:
+            for y in WIDE:
+                cases.append({"a": {"kind": kinds[0], "id": 8000 + wi, "name": x, "module": "m"},
+                              "b": {"kind": kinds[1], "id": 8001 + wi, "name": y, "module": "m"}})
+                cases.append({"a": {"kind": kinds[0], "id": 8002 + wi, "name": "I", "module": x},
+                              "b": {"kind": kinds[1], "id": 8003 + wi, "name": "I", "module": y}})
+                wi += 4
     for k in range(n):
         a = _operand(rng, 1)
         if rng.random() < 0.15:
@@ -199,7 +224,7 @@ def extra(run, impl, known):
                           "sort", no_input=not diff)
 
 TECHNIQUE = "Coq proof over a Gallina model of _compare / IB_richcompare + CPython's comparison protocol; vm_compute correspondence with both implementations"
-LEVEL_TEXT = ("Machine-checked theorems (Properties/C12.v, 15 theorems, closed under the global context) state the order/"
+LEVEL_TEXT = ("Machine-checked theorems (Properties/C12.v, 19 theorems, closed under the global context; the Python _compare/comparison methods AND the C slot IB_richcompare are regenerated from the source text on every run and proved equal to the model) state the order/"
               "equality/hash laws for all operands and strings with no bound; the model's executable definitions are "
               "compared with the C and Python implementations on generated operand pairs on every run, and the "
               "implementation's raw answers are additionally judged by the key-order Spec inside Coq.")
